@@ -426,7 +426,7 @@ def rdgraphspaceedge_to_dict(edge, parent_units_system) :
          }
     
     if edge.units_system != parent_units_system :
-        d["units"] = unitssystem_to_dict(node.units_system)
+        d["units"] = unitssystem_to_dict(edge.units_system)
 
     return d
 
